@@ -19,6 +19,7 @@ PROCS = int(os.environ.get("VERIF_PROCS", "0")) or min(16, os.cpu_count() or 1)
 # record in a shared map: (start of its task, last heart beat, task index, text of the case in hand).  The parent polls;
 # a worker whose beat is older than CASE_LIMIT seconds of real time (explorers that call beat() before every
 # evaluation) or whose task runs longer than TASK_LIMIT is killed and reported as a violation of kind "hang".
+FAILFAST = bool(os.environ.get("VERIF_FAILFAST"))
 CASE_LIMIT = float(os.environ.get("VERIF_CASE_LIMIT", "45"))
 TASK_LIMIT = float(os.environ.get("VERIF_TASK_LIMIT", "0")) or None  # set by run.py according to the tier
 _REC = 1024
@@ -175,6 +176,8 @@ def pmap(fn, tasks, seed: int = 0, procs: int | None = None):
                 idx, res = it.next(timeout=2.0)
                 out[idx] = res
                 got += 1
+                if FAILFAST and getattr(res, "v", None):
+                    break
                 continue
             except mp.TimeoutError:
                 pass
@@ -196,6 +199,13 @@ def pmap(fn, tasks, seed: int = 0, procs: int | None = None):
         pool.join()
         _mm.close()
         _mm = None
+    if got < len(tasks) and not hung:  # fail-fast stop
+        from mc import core
+
+        for i in range(len(tasks)):
+            if out[i] is None:
+                out[i] = core.Part()
+                out[i].capped = True
     if hung:
         from mc import core
 
